@@ -49,7 +49,18 @@ def _both_empty(scn):
     return False
 
 
+def valid(scn):
+    """scenarios the generators / the shrinker may produce (documented preconditions of the users)"""
+    if scn["kind"] == "timeseries":
+        return len(scn["xts"]) >= 1      # cmb_timeseries_finalize / _summarize require a non-empty series
+    return True
+
+
 def _weighted_nonunit(scn):
+    if scn["kind"] == "timeseries":
+        return True
+    if scn["kind"] == "selfmerge":
+        return bool(scn.get("weighted"))
     if scn["kind"] in ("wseq", "wscale", "wzero"):
         ws = [w for _, w in scn["xws"] if w != 0]
         return scn["kind"] == "wscale" or any(w != 1.0 for w in ws)
@@ -66,7 +77,7 @@ KNOWN_TRIGGERS = {"merge-empty-operands": _both_empty, "weighted-moments-not-nor
 def _lists_of(scn):
     """mutable sample lists inside a scenario"""
     k = scn["kind"]
-    if k in ("seq", "wunit", "dataset"):
+    if k in ("seq", "wunit", "dataset", "selfmerge"):
         return [scn["xs"]]
     if k == "timeseries":
         return [scn["xts"]]
@@ -151,6 +162,16 @@ def _chunks(xs, n):
     return [xs[i:i + n] for i in range(0, len(xs), n)]
 
 
+def _job(a):
+    return statcorr.run_scenarios(a[0], a[1])
+
+
+def _pmap(exe, chunks):
+    import multiprocessing
+    with multiprocessing.Pool(min(vlib.NPROC, max(len(chunks), 1))) as pool:
+        return pool.map(_job, [(exe, c) for c in chunks])
+
+
 def run(chk):
     quick = chk.tier == "quick"
     impl = vlib.build_impl("rel")
@@ -205,13 +226,13 @@ def run(chk):
                 failing.append((s, probs))
     total = 12000 if quick else 120000
     scns = statcorr.gen_scenarios(chk.seed, total, quick=quick, exclude=exclude)
-    for part in vlib.parallel_map(lambda c: statcorr.run_scenarios(c_exe, c), _chunks(scns, 1500)):
+    for part in _pmap(c_exe, _chunks(scns, 600)):
         results += part
     if not quick:
         san = vlib.build_impl("san")
         c_san = vlib.cc_harness("statdrv", san, extra_flags=("-frounding-math",))
         extra = statcorr.gen_scenarios(chk.seed + 7919, 20000, quick=True, exclude=exclude)
-        for part in vlib.parallel_map(lambda c: statcorr.run_scenarios(c_san, c), _chunks(extra, 1500)):
+        for part in _pmap(c_san, _chunks(extra, 600)):
             results += part
     failing += [(s, p) for s, p, _ in results if p]
     ill = sum(k for _, _, k in results)
@@ -242,6 +263,8 @@ def run(chk):
     # ---- report ------------------------------------------------------------
     def fails_on(exe):
         def f(s):
+            if not valid(s):
+                return False
             try:
                 return bool(statcorr.run_scenarios(exe, [s])[0][1])
             except Exception:
@@ -253,10 +276,12 @@ def run(chk):
         hit = [i for i in known_ids if i in KNOWN_TRIGGERS and KNOWN_TRIGGERS[i](s)]
         if hit:
             continue
-        g = ("merge of unweighted summaries" if s["kind"] in ("merge",) else
+        wsm = s["kind"] == "selfmerge" and bool(s.get("weighted"))
+        g = ("merge of unweighted summaries" if s["kind"] == "merge" or (s["kind"] == "selfmerge" and not wsm) else
              "unweighted summary" if s["kind"] in ("seq", "dataset") else
-             "merge of weighted summaries" if s["kind"] == "wmerge" else
-             "weights rescaled" if s["kind"] == "wscale" else "weighted summary")
+             "merge of weighted summaries" if s["kind"] == "wmerge" or wsm else
+             "weights rescaled" if s["kind"] == "wscale" else
+             "time series summary" if s["kind"] == "timeseries" else "weighted summary")
         cur = groups.get(g)
         if cur is None or statcorr.scenario_samples(s) < statcorr.scenario_samples(cur[0]):
             groups[g] = (s, probs)
@@ -287,9 +312,18 @@ def run(chk):
 
 def replay(chk, path):
     impl = vlib.build_impl("rel")
+    try:
+        info, _, _ = gen_stats.run(impl)
+        chk.cov["generated_from"] = info
+        chk.prove(extra_targets=["CimbaModel.Stats.Eval"])
+    except c2lean.Untranslatable as ex:
+        chk.log("translator cannot handle the current source: %s" % ex)
     c_exe = vlib.cc_harness("statdrv", impl, extra_flags=("-frounding-math",))
     scns = [json.loads(l) for l in open(path) if l.strip() and not l.startswith("#")]
     chk.cov["evaluations"] = len(scns)
+    chk.cov["distinct_nontrivial"] = len({statcorr.scenario_key(s) for s in scns if statcorr.scenario_samples(s) >= 2})
+    chk.cov["rule"] = "replay of the scenarios of one file against the real library (exact statistics, conditioning-scaled tolerance)"
+    chk.cov["samples"] = scns[:3]
     chk.cov["trusted_base"] = TRUSTED
     for s, probs, _ in statcorr.run_scenarios(c_exe, scns):
         if probs:
